@@ -48,3 +48,35 @@ def run_agg(A, J):
         return "ok", A(J)
     except Exception as e:  # noqa: BLE001
         return "err", classify_exc(e)
+
+
+def refill_history(make, Jt, Jt2, seed, how):
+    """the SAME tensor object is passed twice, its contents replaced in between through a channel autograd's version
+    counter does not see (`how` = "numpy": shared memory with a numpy buffer; "data": `.data.copy_`); the second result
+    must be what a fresh instance returns on a fresh tensor with the new contents.  Returns None or a message."""
+    import numpy as np
+    import torch
+    A = make()
+    if how == "numpy":
+        buf = np.array(Jt.numpy(), copy=True)
+        T = torch.from_numpy(buf)
+    else:
+        T = Jt.clone()
+    torch.manual_seed(seed)
+    try:
+        A(T)
+    except Exception as e:  # noqa: BLE001
+        return f"raised {type(e).__name__} on the first call"
+    if how == "numpy":
+        buf[...] = Jt2.numpy()
+    else:
+        T.data.copy_(Jt2)
+    torch.manual_seed(seed)
+    st_b, x_b = run_agg(A, T)
+    torch.manual_seed(seed)
+    st_c, x_c = run_agg(make(), Jt2.clone())
+    if st_b != st_c or (st_b == "ok" and not torch.equal(x_b, x_c)):
+        return (f"second call on the same tensor object (contents replaced through {'a numpy view' if how == 'numpy' else '.data'}) "
+                f"gives {x_b.tolist() if st_b == 'ok' else x_b}; a fresh instance on a fresh tensor with the same contents gives "
+                f"{x_c.tolist() if st_c == 'ok' else x_c}")
+    return None
